@@ -128,3 +128,68 @@ class Tripwire:
             return mk
         self._uses.append('%s.%s' % (self._name, attr))
         return getattr(self._delegate, attr)
+
+
+# ---------------------------------------------------------------------------------------------------
+# default arguments `rng=random` are bound to the real module at definition time: a module-global tripwire cannot see them
+# ---------------------------------------------------------------------------------------------------
+import contextlib as _ctx, inspect as _inspect, sys as _sys, random as _random_mod
+
+_SITES = None
+
+
+def _default_rng_sites():
+    global _SITES
+    if _SITES is not None:
+        return _SITES
+    import msdm  # noqa
+    sites = []
+    seen = set()
+
+    def visit_fn(f):
+        f = _inspect.unwrap(f) if callable(f) else f
+        if not _inspect.isfunction(f) or id(f) in seen:
+            return
+        seen.add(id(f))
+        if f.__kwdefaults__:
+            for k, v in f.__kwdefaults__.items():
+                if v is _random_mod:
+                    sites.append((f, 'kw', k))
+        if f.__defaults__:
+            for i, v in enumerate(f.__defaults__):
+                if v is _random_mod:
+                    sites.append((f, 'pos', i))
+    for name, mod in list(_sys.modules.items()):
+        if not name.startswith('msdm') or mod is None:
+            continue
+        for obj in list(vars(mod).values()):
+            if _inspect.isfunction(obj) and getattr(obj, '__module__', '').startswith('msdm'):
+                visit_fn(obj)
+            elif _inspect.isclass(obj) and getattr(obj, '__module__', '').startswith('msdm'):
+                for v in list(vars(obj).values()):
+                    visit_fn(getattr(v, '__func__', getattr(v, 'fget', v)))
+    _SITES = sites
+    return sites
+
+
+@_ctx.contextmanager
+def default_rng_tripwire(trip):
+    """swap every `rng=random` default argument of msdm functions for the tripwire while the block runs"""
+    sites = _default_rng_sites()
+    for f, kind, k in sites:
+        if kind == 'kw':
+            f.__kwdefaults__[k] = trip
+        else:
+            d = list(f.__defaults__)
+            d[k] = trip
+            f.__defaults__ = tuple(d)
+    try:
+        yield len(sites)
+    finally:
+        for f, kind, k in sites:
+            if kind == 'kw':
+                f.__kwdefaults__[k] = _random_mod
+            else:
+                d = list(f.__defaults__)
+                d[k] = _random_mod
+                f.__defaults__ = tuple(d)
